@@ -942,6 +942,17 @@ func _panic(n *node) {
 	}
 }
 
+// detachedCopy returns a copy of v which does not alias the frame slot v was
+// read from: the arguments of a deferred call are fixed at the defer statement.
+func detachedCopy(v reflect.Value) reflect.Value {
+	if !v.IsValid() {
+		return v
+	}
+	c := reflect.New(v.Type()).Elem()
+	c.Set(v)
+	return c
+}
+
 func genBuiltinDeferWrapper(n *node, in, out []func(*frame) reflect.Value, fn func([]reflect.Value) []reflect.Value) {
 	next := getExec(n.tnext)
 
@@ -950,7 +961,7 @@ func genBuiltinDeferWrapper(n *node, in, out []func(*frame) reflect.Value, fn fu
 			val := make([]reflect.Value, len(in)+1)
 			inTypes := make([]reflect.Type, len(in))
 			for i, v := range in {
-				val[i+1] = v(f)
+				val[i+1] = detachedCopy(v(f))
 				inTypes[i] = val[i+1].Type()
 			}
 			outTypes := make([]reflect.Type, len(out))
@@ -1303,7 +1314,7 @@ func call(n *node) {
 			val := make([]reflect.Value, len(values)+1)
 			val[0] = value(f)
 			for i, v := range values {
-				val[i+1] = v(f)
+				val[i+1] = detachedCopy(v(f))
 			}
 			f.deferred = append([][]reflect.Value{val}, f.deferred...)
 			return tnext
@@ -1582,7 +1593,7 @@ func callBin(n *node) {
 			val := make([]reflect.Value, l+1)
 			val[0] = value(f)
 			for i, v := range values {
-				val[i+1] = getBinValue(getMapType, v, f)
+				val[i+1] = detachedCopy(getBinValue(getMapType, v, f))
 			}
 			f.deferred = append([][]reflect.Value{val}, f.deferred...)
 			return tnext
